@@ -18,6 +18,44 @@ STR = z3.DeclareSort("Str")      # python str whose contents are not interpreted
 
 _cnt = itertools.count()
 
+# Bounded (refutation) mode: when BOUND is an int B, sequence lengths are assumed <= B and quantifiers over integer
+# (index) variables are expanded over [-1, B+1]; the resulting queries are quantifier-free, so z3 returns definite
+# models.  Used only to FIND counterexamples, never to prove.
+BOUND = None
+
+
+def _dom():
+    # derived sequences (concatenations) can be up to twice as long as the bounded inputs
+    return range(-1, 2 * BOUND + 2)
+
+
+def QAll(vs, body):
+    """z3.ForAll over integer variables, expanded by substitution in bounded mode"""
+    if BOUND is None or any(v.sort() != I for v in vs):
+        return z3.ForAll(vs, body)
+    return z3.And(*[z3.substitute(body, *[(v, z3.IntVal(c)) for v, c in zip(vs, combo)]) for combo in itertools.product(_dom(), repeat=len(vs))])
+
+
+def QEx(vs, body):
+    if BOUND is None or any(v.sort() != I for v in vs):
+        return z3.Exists(vs, body)
+    return z3.Or(*[z3.substitute(body, *[(v, z3.IntVal(c)) for v, c in zip(vs, combo)]) for combo in itertools.product(_dom(), repeat=len(vs))])
+
+
+def q_all(n, fn):
+    """forall over n integer variables of fn(*vars) (expanded in bounded mode)"""
+    if BOUND is None:
+        vs = [z3.Int(f"q!{next(_cnt)}") for _ in range(n)]
+        return z3.ForAll(vs, fn(*vs))
+    return z3.And(*[fn(*[z3.IntVal(c) for c in combo]) for combo in itertools.product(_dom(), repeat=n)])
+
+
+def q_ex(n, fn):
+    if BOUND is None:
+        vs = [z3.Int(f"q!{next(_cnt)}") for _ in range(n)]
+        return z3.Exists(vs, fn(*vs))
+    return z3.Or(*[fn(*[z3.IntVal(c) for c in combo]) for combo in itertools.product(_dom(), repeat=n)])
+
 
 def fresh(prefix, sort):
     return z3.Const(f"{prefix}!{next(_cnt)}", sort)
@@ -321,9 +359,8 @@ def val_eq(a, b):
             return z3.BoolVal(False)
         return z3.And(*[val_eq(x, y) for x, y in zip(ai, bi)]) if ai else z3.BoolVal(True)
     if isinstance(a, VSeq) and isinstance(b, VSeq) and set(a.arrs) == set(b.arrs):
-        k = z3.Int(f"k!{next(_cnt)}")
-        body = z3.And(*[z3.Select(a.arrs[p], k) == z3.Select(b.arrs[p], k) for p in a.arrs]) if a.arrs else z3.BoolVal(True)
-        return z3.And(a.len == b.len, z3.ForAll([k], z3.Implies(z3.And(0 <= k, k < a.len), body)))
+        body = lambda k: z3.And(*[z3.Select(a.arrs[p], k) == z3.Select(b.arrs[p], k) for p in a.arrs]) if a.arrs else z3.BoolVal(True)
+        return z3.And(a.len == b.len, q_all(1, lambda k: z3.Implies(z3.And(0 <= k, k < a.len), body(k))))
     if isinstance(a, VSet) and isinstance(b, VSet):
         return a.arr == b.arr
     return None
